@@ -82,7 +82,7 @@ def main():
                 b = handles[c["path"]] = pybigtools.open(c["path"])
             kw = {"missing": fill(c["missing"]), "oob": fill(c["oob"])}
             if c["bins"]:
-                kw.update(bins=c["bins"], summary=c["stat"], exact=True)
+                kw.update(bins=c["bins"], summary=c["stat"], exact=bool(c.get("exact", 1)))
             if c.get("arr"):
                 # a caller-supplied, previously used output array: its old contents must not show through
                 import numpy as np
